@@ -192,7 +192,7 @@ def run_unit(unit, defines=None, vacuity=False, rlimit=None, seed=None, tag='mai
                 if o and o.get('kind') in ('contract', 'template') and (not s['primary'] or kind in ('invariant', 'assertion')):
                     clause = dict(file=o['file'], line=o['line'], name=None, text=s['text'], of_fn=o.get('fn'))
                     break
-        res['failures'].append(dict(kind=kind, message=msg, fn=fn, clause=clause, tags=tags, repo_site=repo_site,
+        res['failures'].append(dict(kind=kind, message=msg, fn=fn, unit_props=sorted(unit_props(unit)), clause=clause, tags=tags, repo_site=repo_site,
                                     rendered=d.get('rendered', ''), spans=[dict(line=s['line'], label=s['label'], text=s['text']) for s in spans]))
     if summary:
         vr = summary.get('verification-results', {})
@@ -240,6 +240,9 @@ def failure_props(f, fninfo_by_key):
         return props
     if fi:
         props.update(fi['props'])
+    if not props:
+        # a failing obligation that carries no tag (e.g. a lemma about an extracted constant): conservatively every property of the unit
+        props.update(f.get('unit_props') or [])
     return props
 
 
